@@ -905,6 +905,17 @@ def rule_r1(ctx):
                 if "dual_data" in names and fn_.endswith("_data_with_dual") \
                         and isinstance(x.targets[0], ast.Name):
                     names.add(x.targets[0].id)
+        if "dimension" in names:
+            # the dimension by provenance: any local bound (in any arm) from
+            # `<parameter>.dimension` or from the last axis of a `.shape`
+            for x in ast.walk(f.node):
+                if isinstance(x, ast.Assign) and len(x.targets) == 1 \
+                        and isinstance(x.targets[0], ast.Name):
+                    v = x.value
+                    if any(isinstance(y, ast.Attribute)
+                           and y.attr in ("dimension", "shape")
+                           for y in ast.walk(v)):
+                        names.add(x.targets[0].id)
         allpaths = list(_paths_to_return(f.node.body))
         ifs = {id(c): c for conds, _ in allpaths for c, _t in conds
                if isinstance(c, ast.If)
